@@ -502,6 +502,19 @@ pub fn gen_tex_3ds(rng: &mut Rng, sjis: bool, big: bool) -> Tex {
     Tex { name: gen_name(rng, sjis), w, h, fmt, payload, palette: Vec::new() }
 }
 
+/// Palette bytes for `entries` RGB5A3 entries: random, but a good share of the entries are the values
+/// at which the two RGB5A3 forms meet or saturate (0x8000 opaque black, 0x7FFF, 0x0000, 0xFFFF, 0x8001,
+/// 0x7000 ...), so that every one of them is used by some pixel of some image.
+pub fn rgb5a3_palette(rng: &mut Rng, entries: usize) -> Vec<u8> {
+    const SPECIAL: [u16; 10] = [0x8000, 0x7FFF, 0x0000, 0xFFFF, 0x8001, 0x7000, 0x0FFF, 0xFC00, 0x83E0, 0x801F];
+    let mut v = Vec::with_capacity(entries * 2);
+    for _ in 0..entries {
+        let e: u16 = if rng.chance(1, 3) { *rng.pick(&SPECIAL) } else { rng.next() as u16 };
+        v.extend_from_slice(&e.to_be_bytes());
+    }
+    v
+}
+
 /// CI8 index plane for a `w`x`h` image over `entries` palette entries, in 8x4 blocks of the padded
 /// image: texels inside the image index the palette; padding texels (outside `w`x`h`) are not part of
 /// the image and take bytes from the full range — 0xFF filler, values at and above the palette length.
@@ -532,7 +545,7 @@ pub fn gen_tex_tpl(rng: &mut Rng, big: bool) -> Tex {
     let (w, h) = if big { (rng.range(1, 64) as u32, rng.range(1, 64) as u32) } else { (rng.range(1, 18) as u32, rng.range(1, 10) as u32) };
     let entries = *rng.pick(&[1usize, 2, 5, 16, 32, 255, 256]);
     let payload = ci8_plane(rng, w, h, entries);
-    Tex { name: String::new(), w, h, fmt: 9, payload, palette: rng.bytes(entries * 2) }
+    Tex { name: String::new(), w, h, fmt: 9, payload, palette: rgb5a3_palette(rng, entries) }
 }
 
 /// `byte_size_of_image` of a TPL image format (independent integer table).
@@ -629,7 +642,7 @@ pub fn gen(seed: u64, tier: &str) -> Vec<String> {
             let aw = (w as usize + 7) / 8 * 8;
             let ah = (h as usize + 3) / 4 * 4;
             let payload: Vec<u8> = (0..aw * ah).map(|_| rng.below(entries as u64) as u8).collect();
-            let texs = vec![Tex { name: String::new(), w, h, fmt: 9, payload, palette: rng.bytes(entries * 2) }];
+            let texs = vec![Tex { name: String::new(), w, h, fmt: 9, payload, palette: rgb5a3_palette(&mut rng, entries) }];
             let b = build_tpl(&texs, &mut rng, true);
             next(&mut lines, format!("read tpl {} {}", hex(&b.file), tex_fields(&texs, &b)));
         }
@@ -681,7 +694,7 @@ pub fn gen(seed: u64, tier: &str) -> Vec<String> {
                     continue;
                 }
                 let entries = *rng.pick(&[2usize, 16, 255]);
-                let ci8 = vec![Tex { name: String::new(), w, h, fmt: 9, payload: ci8_plane(&mut rng, w, h, entries), palette: rng.bytes(entries * 2) }];
+                let ci8 = vec![Tex { name: String::new(), w, h, fmt: 9, payload: ci8_plane(&mut rng, w, h, entries), palette: rgb5a3_palette(&mut rng, entries) }];
                 let oth = vec![Tex { name: String::new(), w: aw, h: ah, fmt: other, payload: rng.bytes(tpl_image_bytes(other, aw, ah)), palette: rng.bytes(8) }];
                 let b1 = build_tpl(&ci8, &mut rng, true);
                 let b2 = build_tpl(&oth, &mut rng, true);
